@@ -1,6 +1,7 @@
 package exec
 
 import (
+	"go/token"
 	"fmt"
 	"go/types"
 	"os"
@@ -569,6 +570,11 @@ func (p *Program) instrWrites(ins ssa.Instruction) []string {
 		out[clChanSent] = true
 		out[clChanN] = true
 		out[clChanClosed] = true
+		out[clChanRecv] = true
+	case *ssa.UnOp:
+		if i.Op == token.ARROW {
+			out[clChanRecv] = true
+		}
 	case *ssa.MakeSlice:
 		et := i.Type().Underlying().(*types.Slice).Elem()
 		p.classesOfType(et, "e:"+typeKey(et), out)
